@@ -1,5 +1,5 @@
 """property id -> rules, explanation of what is / is not decided"""
-from rules import r_hist, r_lock, r_errdrop, r_coord, r_keyid, r_opcode, r_doaction, r_cancel, r_idle, r_loop, r_traverse, r_repeat, r_chv2, r_wait, r_macro, r_seq, r_override, r_reload, r_pipeline, r_dynmacro, r_vkey, r_layers, r_panic, r_prodcons, r_span, r_rec, r_evict, r_coordspace, r_loopvar, r_depth, r_countdown, r_accessor, r_scratch
+from rules import r_hist, r_lock, r_errdrop, r_coord, r_keyid, r_opcode, r_doaction, r_cancel, r_idle, r_loop, r_traverse, r_repeat, r_chv2, r_wait, r_macro, r_seq, r_override, r_reload, r_pipeline, r_dynmacro, r_vkey, r_layers, r_panic, r_prodcons, r_span, r_rec, r_evict, r_coordspace, r_loopvar, r_depth, r_countdown, r_accessor, r_scratch, r_sticky, r_buildall
 
 PROPS = {
     "C01": {
@@ -54,7 +54,7 @@ PROPS = {
                        "char-boundary safety of span slicing beyond the reviewed lexer invariant",
     },
     "C04": {
-        "rules": [r_coord.run, r_doaction.rule_state_push, r_layers.rule_fill, r_layers.rule_press_dedup, r_doaction.rule_state_clear],
+        "rules": [r_coord.run, r_doaction.rule_state_push, r_layers.rule_fill, r_layers.rule_press_dedup, r_doaction.rule_state_clear, r_buildall.run_for("C04")],
         "explanation": "Narrow: (R-FILL) the default fill of unassigned layer positions is decided from block-unmapped-keys and the "
                        "key only, never from the layer index, and position 0 is forced to NoOp; decides the release half of layered remapping — every state a press creates is keyed on the "
                        "coordinate (never the layer) and removed by Release at that coordinate (R-COORD); the key / layer / custom "
@@ -83,7 +83,7 @@ PROPS = {
         "not_decided": "which key is 'the next one', timeout arithmetic, stacking semantics — run-time values",
     },
     "C11": {
-        "rules": [r_keyid.run_all, r_layers.rule_mapped, r_coordspace.run, r_reload.rule_globals],
+        "rules": [r_keyid.run_all, r_layers.rule_mapped, r_coordspace.run, r_reload.rule_globals, r_buildall.run_for("C11")],
         "level": "proof",
         "explanation": "Decides: (a) OsCode and KeyCode have identical discriminant sets and are repr(u16) — the exact soundness "
                        "condition of every enum transmute in the analysed crates, which are enumerated; (b) each arm n of "
@@ -118,7 +118,7 @@ PROPS = {
                        "(see C01/C02 R-EVICT) — run-time values",
     },
     "C09": {
-        "rules": [r_traverse.run_chords, r_chv2.run_all],
+        "rules": [r_traverse.run_chords, r_chv2.run_all, r_buildall.run_for("C09")],
         "explanation": "Narrow: (R-CHV2-REL) v2: release bookkeeping dominates every wholesale removal from the v2 queue, active "
                        "chords leave only via clear_released_chords which queues their virtual Release; (R-CHV2-DISABLED) every "
                        "chord-selecting lookup in process_presses filters on disabled layers (sibling agreement); (R-CH1-GUARD) v1: "
@@ -128,7 +128,7 @@ PROPS = {
         "not_decided": "exact-set activation, press-order independence, decomposition order, v2 candidate search — run-time values",
     },
     "C12": {
-        "rules": [r_seq.run_all],
+        "rules": [r_seq.run_all, r_buildall.run_for("C12")],
         "explanation": "Decides: (R-SEQ-CONFLICT) the only Trie::insert of the sequence table is dominated by ancestor_exists and "
                        "descendant_exists on the same key sequence, each with its true edge leading away from the insert; "
                        "(R-SEQ-BITS) key-code / modifier / overlap bit fields are disjoint and every modifier mask is a distinct "
@@ -138,7 +138,7 @@ PROPS = {
         "not_decided": "exactly-once firing, backtracking, timeout boundary, permutations of overlap groups — run-time values",
     },
     "C13": {
-        "rules": [r_override.run_all],
+        "rules": [r_override.run_all, r_buildall.run_for("C13")],
         "explanation": "Narrow: (R-OVR-SCRATCH) in override_keys the scratch reset dominates every use of the scratch and the "
                        "no-overrides early return precedes every mutation; (R-OVR-MODS) mask_for_key returns Some for exactly the "
                        "keys OsCode::is_modifier accepts and the eight masks are distinct single bits; (R-OVR-BOTH) the tick path "
@@ -159,7 +159,7 @@ PROPS = {
                        "scroll states, recorded macros is deliberately retained); file index selection arithmetic",
     },
     "C16": {
-        "rules": [r_pipeline.run, r_pipeline.run_template, r_pipeline.run_vars, r_pipeline.run_layer_lists],
+        "rules": [r_pipeline.run, r_pipeline.run_template, r_pipeline.run_vars, r_pipeline.run_layer_lists, r_sticky.run, r_pipeline.run_rawmatch, r_buildall.run_for("C16")],
         "explanation": "Narrow: decides the ordering preconditions of transparent indirection — the pre-processing stages are chained "
                        "include -> platform -> env -> template, each consuming the previous stage's result (data-flow order of the "
                        "and_then chain), parse_vars runs after pre-processing and dominates every parser that (transitively) "
@@ -168,7 +168,7 @@ PROPS = {
                        "(e.g. simultaneous vs sequential parameter substitution) — relations between two programs",
     },
     "C14": {
-        "rules": [r_traverse.run_repeat, r_repeat.run_outputs, r_repeat.run, r_repeat.run_collect, r_scratch.run],
+        "rules": [r_traverse.run_repeat, r_repeat.run_outputs, r_repeat.run, r_repeat.run_collect, r_scratch.run, r_buildall.run_for("C14")],
         "explanation": "Decides: the repeat-table builder passes every nested action of every Action variant (derived from the "
                        "type) to its recursion and records every key-code-bearing variant (R-TRAVERSE, R-RPT-TABLE); in "
                        "handle_repeat_actual every write of a repeat is reachable only through a 'key currently held' test, at "
@@ -177,7 +177,7 @@ PROPS = {
         "not_decided": "which of several output keys is preferred; layer search order — run-time values",
     },
     "C10": {
-        "rules": [r_opcode.run_all, r_doaction.rule_fork_keys, r_hist.run, r_accessor.run],
+        "rules": [r_opcode.run_all, r_doaction.rule_fork_keys, r_hist.run, r_accessor.run, r_buildall.run_for("C10")],
         "explanation": "Decides the encoding layer of switch and what it is evaluated over: (R-ACCESSOR) State::coord / State::keycode, "
                        "which feed the `input` and key conditions, return Some for every State variant that has the field; (a) the opcode tag constants partition u16 (evaluated constants); "
                        "(b) every OpCode constructor's tag and bit-fields are decoded by opcode_type into the OpCodeType variant its "
@@ -189,7 +189,7 @@ PROPS = {
                        "compression numerics — these are functions of run-time values",
     },
     "C18": {
-        "rules": [r_vkey.run_all, r_coord.run, r_macro.rule_seq_custom],
+        "rules": [r_vkey.run_all, r_coord.run, r_macro.rule_seq_custom, r_buildall.run_for("C18")],
         "explanation": "Narrow: (R-VK-SINGLE) FakeKeyAction is interpreted only in handle_fakekey_action, which every trigger path "
                        "(key press, key release, on-idle, TCP) calls, and each of press/release/tap/toggle produces layout events; "
                        "(R-COORD) toggle's 'is it pressed' predicate covers exactly the State variants that carry a coordinate; "
